@@ -27,7 +27,7 @@ var zzErrABI = errors.New("zz: abi failure")
 // verifications = the order in which selectTransactionsByFee picked candidates that fit.
 type zzFakeABI struct {
 	t     *zzT
-	two   bool // quick tier: verdicts restricted to {invalid, ok/success}
+	two   bool // quick tier: execute verdicts restricted to {invalid, success}, verify verdicts to {invalid, pending, ok}
 	picks []int
 	vOK   [4]bool
 	eOK   [4]bool
@@ -39,7 +39,7 @@ func (a *zzFakeABI) VerifyTransaction(req *labi.VerifyTransactionRequest) (*labi
 	v := a.t.I32(a.t.Name("verify", i))
 	a.t.Assume(a.t.And(v >= -1, v <= 2))
 	if a.two {
-		a.t.Assume(a.t.Or(v == -1, v == 1))
+		a.t.Assume(v != 2)
 	}
 	a.vOK[i] = v == labi.TxVerifyResultOk
 	if v == 2 {
@@ -177,14 +177,14 @@ func zzByNonce(txs []*blockchain.Transaction, snd []int) [2][]int {
 //
 //zz:opt loop=16 require=end,full,size-stop,sender-dropped
 //zz:stub (*~/pkg/blockchain.Transaction).Size zzStubTxSize
-//zz:quick n=3 sizes=2 verdicts=2 senders=1 mapperm=1 budget=300s
+//zz:quick n=3 sizes=2 verdicts=3 senders=1 mapperm=1 budget=300s
 //zz:thorough n=3 sizes=0 verdicts=4 senders=0 mapperm=1 budget=3600s
 func zzH_C15_select_by_fee(t *zzT) {
 	n := t.Range("n", 1, t.Param("n", 3))
 	txs, snd := zzNewTxs(t, n)
 	maxSize := t.Int("maxSize")
 	t.Assume(t.And(maxSize >= 0, maxSize <= 1<<22))
-	fake := &zzFakeABI{t: t, two: t.Param("verdicts", 4) == 2}
+	fake := &zzFakeABI{t: t, two: t.Param("verdicts", 4) < 4}
 	exec := &stateExecuter{client: fake, contextID: codec.Hex{1}, events: []*blockchain.Event{}}
 	g := &Generator{}
 	header := &blockchain.BlockHeader{}
